@@ -76,7 +76,7 @@ var blsFmts = []blsFmt{
 
 var blsKinds = []string{
 	"valid", "valid", "bitflip", "bitflip", "flags", "coord>=p", "coord>=p", "oncurve-not-subgroup", "oncurve-not-subgroup",
-	"cofactor-component", "twist", "infinity-stray", "infinity-stray", "unused-high-bits", "random",
+	"cofactor-component", "twist", "structured-valid", "structured-valid", "infinity-stray", "infinity-stray", "unused-high-bits", "random",
 }
 
 // drawE2 draws a field element of the format's coordinate field.
@@ -213,6 +213,41 @@ func genBLS(t *rapid.T, f blsFmt, kind string) (b []byte, valid bool, orig blsPo
 	case "oncurve-not-subgroup":
 		P := drawCurvePoint(t, g, nil, "pt")
 		return decode.BLSEncode(g, P, comp), false, nil
+	case "structured-valid":
+		// members built by the reference: ±k·G for small k (k = 0: the identity), or h·P for a curve point
+		// P with a structured x-coordinate (x in the prime subfield, a zero component, small, near p)
+		var P decode.WPoint
+		if rapid.IntRange(0, 3).Draw(t, "how") != 0 {
+			P = decode.WMul(big.NewInt(int64(rapid.IntRange(0, 48).Draw(t, "k"))), decode.BLSGen(g))
+		} else {
+			h := decode.BLSH1
+			if g == 2 {
+				h = decode.BLSH2
+			}
+			for i := 0; ; i++ {
+				x := decode.E2{A: drawStructured(t, decode.BLSP, fmt.Sprintf("xa%d", i)), B: new(big.Int)}
+				if g == 2 {
+					switch rapid.IntRange(0, 2).Draw(t, fmt.Sprintf("shape%d", i)) {
+					case 0: // x in Fp
+					case 1: // x purely imaginary
+						x = decode.E2{A: new(big.Int), B: x.A}
+					default:
+						x.B = drawStructured(t, decode.BLSP, fmt.Sprintf("xb%d", i))
+					}
+				}
+				if Q, ok := decode.BLSLift(g, x, nil); ok {
+					P = decode.WMul(h, Q)
+					break
+				}
+				if i > 200 {
+					t.Fatalf("harness: no structured x lifts")
+				}
+			}
+		}
+		if rapid.Bool().Draw(t, "neg") {
+			P = decode.WNeg(P)
+		}
+		return decode.BLSEncode(g, P, comp), false, nil
 	case "cofactor-component":
 		// r·P has order dividing the cofactor: a pure small-subgroup / cofactor point
 		P := decode.WMul(decode.BLSR, drawCurvePoint(t, g, nil, "pt"))
@@ -337,6 +372,9 @@ func checkBLS(t vlib.TB, f blsFmt, b []byte, kind string, valid bool, orig blsPo
 		vlib.Report(t, "C09/completeness/"+f.name+".SetBytes/rejects-library-encoding", fmt.Sprintf("input=%x err=%v", b, err))
 		return
 	}
+	if mustAccept(t, f.name+".SetBytes", sub, kind, ref.OK, accepted, b, ref.Stage) {
+		return
+	}
 	if !accepted {
 		return
 	}
@@ -364,6 +402,15 @@ func checkBLS(t vlib.TB, f blsFmt, b []byte, kind string, valid bool, orig blsPo
 	if valid && orig != nil && !(f.isEqual(p, orig) && f.isEqual(orig, p)) {
 		vlib.Report(t, "C09/completeness/"+f.name+".SetBytes/not-equal-after-roundtrip", fmt.Sprintf("input=%x", b))
 		return
+	}
+	if refConstructed(kind) {
+		// the library now holds the value: what it serialises in the other format must decode again (the
+		// compressed form exercises the square root and the sign rule) and compare equal
+		q := f.new()
+		if err := q.SetBytes(other); err != nil || !f.isEqual(p, q) {
+			vlib.Report(t, "C09/completeness/"+f.name+".SetBytes/rejects-library-encoding", fmt.Sprintf("kind=%s input=%x: the other-format serialisation %x of the decoded value: err=%v", kind, b, other, err))
+			return
+		}
 	}
 }
 
@@ -406,6 +453,9 @@ func checkBLSKey[K sbls.KeyGroup](t vlib.TB, f blsFmt, b []byte, kind string, va
 	sample(sub, kind, accepted && okv, b, "ref="+ref.Stage)
 	if valid && !(accepted && okv) {
 		vlib.Report(t, "C09/completeness/"+sub+"/rejects-library-encoding", fmt.Sprintf("input=%x err=%v validate=%v", b, err, okv))
+		return
+	}
+	if mustAccept(t, sub, sub, kind, ref.OK && !ref.P.Inf, accepted && okv, b, ref.Stage) {
 		return
 	}
 	if !accepted {
